@@ -9,12 +9,41 @@
    (7 merged annotated n)    -> label                            annotated-return override; annotated = () | (label)
    (8 () | (name))           -> label                            _annotation_to_type_label
    (9 ctx F A env rhs)       -> (0 label env' toc) | (1 4)       _infer_expr_type on a comprehension (Lang/InferComp.v);
-                                                                 toc = () | (env'') the var_types after _to_c_expr's bracket *)
+                                                                 toc = () | (env'') the var_types after _to_c_expr's bracket
+   (10 ctx (stmt ...) block)  -> (guard parsed)                   script_guard / run_items on  <stmts at column 0> ; while True: <block>
+   (11 (stmt ...) block (n ...)) -> (0 (event ...) returned) | (1 code)    exec_prog along the oracle (Lang/StmtRef.v);
+                                                                 event = (0 x value) store | (1 i value) for target | (2 value) return
+   (12 ctx (items) fname (label ...)) -> (guard parsed)           fn_guard for the body of fname under call signature sg, in the
+                                                                 parser state after the items; parsed = the variant parses
+   (13 block (n ...) env)     -> (0 (event ...) returned) | (1 code)    exec_block of a function body from the given environment *)
 From Coq Require Import ZArith List Bool.
 From RV Require Import Base.Wire Base.Text Lang.PyAst Lang.PySem Lang.PyAstWire
-  Lang.Infer Lang.InferWire Lang.InferGuard Lang.InferComp Lang.Decl Lang.DeclWire.
+  Lang.Infer Lang.InferWire Lang.InferGuard Lang.InferComp Lang.Decl Lang.DeclWire Lang.FnSpec Lang.StmtRef.
 Import ListNotations.
 Open Scope Z_scope.
+
+Fixpoint dec_stmts (l : list wv) : option (list stmt) :=
+  match l with
+  | [] => Some []
+  | x :: r => match dec_stmt x, dec_stmts r with Some s, Some ss => Some (s :: ss) | _, _ => None end
+  end.
+Fixpoint dec_nats (l : list wv) : option (list nat) :=
+  match l with
+  | [] => Some []
+  | WI z :: r => match dec_nats r with Some ns => Some (Z.to_nat z :: ns) | None => None end
+  | _ => None
+  end.
+Definition enc_tev (e : tev) : wv :=
+  match e with
+  | TAssign x v => WL [WI 0; wtext x; enc_val v]
+  | TLoopVar i v => WL [WI 1; wtext i; enc_val v]
+  | TReturn v => WL [WI 2; enc_val v]
+  end.
+Definition enc_xout (r : res xout) : wv :=
+  match r with
+  | Ok (_, _, tr, b) => wok [WL (map enc_tev tr); wbool b]
+  | Err e => werr (perr_code e)
+  end.
 
 Definition run (v : wv) : wv :=
   match v with
@@ -69,6 +98,38 @@ Definition run (v : wv) : wv :=
           | None => werr 4
           end
       | _, _, _, _, _ => wbad
+      end
+  | WL [WI 10; c; WL pre; WL main] =>
+      match dec_ictx c, dec_stmts pre, dec_block main with
+      | Some C, Some p, Some m =>
+          WL [wbool (script_guard C p m);
+              wbool (match run_items C (script_items p m) with Some _ => true | None => false end)]
+      | _, _, _ => wbad
+      end
+  | WL [WI 11; WL pre; WL main; WL orc] =>
+      match dec_stmts pre, dec_block main, dec_nats orc with
+      | Some p, Some m, Some o => enc_xout (exec_prog o p m)
+      | _, _, _ => wbad
+      end
+  | WL [WI 12; c; WL its; f; WL sg] =>
+      match dec_ictx c, dec_items its, un_text f, dec_tys sg with
+      | Some C, Some items, Some name, Some sig =>
+          match run_items C items with
+          | None => WL [wbool false; wbool false]
+          | Some ps =>
+              match tlookup name (fe_src (p_fe ps)) with
+              | None => WL [wbool false; wbool false]
+              | Some src =>
+                  WL [wbool (fn_guard (fn_table (p_fe ps) name) (fe_alias (p_fe ps)) C (p_ctx ps) (fs_params src) sig (fs_body src));
+                      wbool (match parse_function_core C (p_fe ps) (p_ctx ps) name src (Some sig) with Some _ => true | None => false end)]
+              end
+          end
+      | _, _, _, _ => wbad
+      end
+  | WL [WI 13; WL body; WL orc; WL en] =>
+      match dec_block body, dec_nats orc, dec_env en with
+      | Some b, Some o, Some rho => enc_xout (exec_block o rho b)
+      | _, _, _ => wbad
       end
   | WL [WI 8; WL []] => enc_ty (annotation_label None)
   | WL [WI 8; WL [n]] => match un_text n with Some nn => enc_ty (annotation_label (Some nn)) | None => wbad end
